@@ -32,7 +32,11 @@ def arith_combined(script):
 
 
 def ghost_combination_wrong_sat(script):
-    return is_ghost(script) and arith_combined(script)
+    """':ghost-vars true' leaves theory atoms that occur in no unsatisfied clause undecided; interface equalities of
+    theory combination and the atoms of div/mod and equality-splitting definitions are then never checked, so 'sat'
+    is answered on unsatisfiable sets in every logic with arithmetic."""
+    name = script["logic"]
+    return is_ghost(script) and name not in ("QF_UF", "QF_AX")
 
 
 def boolarg_combination_wrong_sat(script):
